@@ -5,12 +5,12 @@ package sftp
 // C20 — no server reply can crash the client.
 
 import (
-	"strings"
 	"encoding/binary"
 	"fmt"
 	"math/rand/v2"
 	"os"
 	"runtime"
+	"strings"
 )
 
 func init() {
@@ -71,6 +71,10 @@ func c20Gen(class string, seed uint64, tier string) *vfScenario {
 		f.A, f.B = 6, int64([]int{0, 0, 1, 4, 99}[rng.IntN(5)])
 	case x < 95:
 		f.A, f.B = 9, int64(rng.IntN(25))
+		if rng.IntN(2) == 0 {
+			f.A, f.B = 10, int64(rng.IntN(5))
+			sc.Cfg["hugeP"] = int64(rng.IntN(2))
+		}
 	case x < 96:
 		f.A, f.B = 7, int64([]int{1, 1, 2, 7, 300}[rng.IntN(5)])
 	case x < 98:
@@ -122,6 +126,12 @@ func c20Enumerate(tier string, base uint64, emit func(*vfScenario)) {
 					sc := b.clone()
 					sc.Faults = []vfFault{f}
 					emit(sc)
+					if f.A == 10 {
+						h := b.clone()
+						h.Cfg["hugeP"] = 1
+						h.Faults = []vfFault{f}
+						emit(h)
+					}
 					if f.A == 1 || (f.A == 0 && f.B <= 9) {
 						st := b.clone()
 						f.S += "sticky"
@@ -159,6 +169,9 @@ func c20Enumerate(tier string, base uint64, emit func(*vfScenario)) {
 				add(vfFault{A: 6, B: 1})
 				for k := 0; k < 25; k += 1 + v*3 {
 					add(vfFault{A: 9, B: int64(k)})
+				}
+				for k := 0; k < 5; k++ {
+					add(vfFault{A: 10, B: int64(k)})
 				}
 				if body[0] == wtData {
 					add(vfFault{A: 7, B: 1})
@@ -262,6 +275,21 @@ func c20Exec(r *vfRun) {
 	srv.exts = [][2]string{{"fsync@openssh.com", "1"}}
 	vfClientSites(sim, 1|2|4)
 	P, M := int(sc.cfg("P", 4)), int(sc.cfg("M", 2))
+	if sc.cfg("hugeP", 0) != 0 {
+		// an application that asked for very large packets (MaxPacketUnchecked accepts any size). Transfers that allocate
+		// their chunk buffers in that size do what they were asked to - the bound on allocation is about what a *reply*
+		// can make the client allocate - so those programs keep the small packet size.
+		big := true
+		for _, op := range sc.Ops {
+			switch op.K {
+			case "writeto", "readfrom", "readfromc", "write", "writeat":
+				big = false
+			}
+		}
+		if big {
+			P = 64 << 20
+		}
+	}
 	c, err := vfStartClient(sim, srv.c2s, srv.s2c, MaxPacketUnchecked(P), MaxConcurrentRequestsPerFile(M),
 		UseConcurrentReads(sc.cfg("concr", 1) != 0), UseConcurrentWrites(sc.cfg("concw", 0) != 0), UseFstat(sc.cfg("fstat", 0) != 0))
 	if err != nil {
@@ -304,6 +332,12 @@ func c20Exec(r *vfRun) {
 			sim.count("fault.peer.mutate")
 			nb := c20Mutate(body, *fault, sc.Seed)
 			sim.tracef("peer mutates reply %d: % x -> % x", idx, body, nb)
+			if fault.A == 10 {
+				// the frame announces far more than follows (and far more than a frame may hold); the body is sent as it was
+				fr := wFrame(nb)
+				binary.BigEndian.PutUint32(fr, []uint32{256*1024 + 1, 1 << 20, 48 << 20, 0x7fffffff, 0xffffffff}[int(fault.B)%5])
+				return fr
+			}
 			return wFrame(nb)
 		}
 		return raw
